@@ -337,6 +337,86 @@ func (g *gtree) descend(t *rapid.T, from, want int, deep bool) (names [][]byte, 
 	return
 }
 
+// descendReal is descend through real directories only (no step passes through
+// a symbolic link), so that the parent of every directory on the way is the
+// previous element: the ground on which "." and ".." elements are unambiguous.
+// The node reached may be of any kind.
+func (g *gtree) descendReal(t *rapid.T, from, want int) (names [][]byte, at int) {
+	at = from
+	for len(names) < want && g.nodes[at].Kind == "d" && len(g.kids[at]) > 0 {
+		kids := g.kids[at]
+		var through []int
+		for _, k := range kids {
+			if g.nodes[k].Kind == "d" {
+				through = append(through, k)
+			}
+		}
+		if len(through) > 0 && rapid.IntRange(0, 5).Draw(t, "straydots") != 0 {
+			kids = through
+		}
+		k := kids[rapid.IntRange(0, len(kids)-1).Draw(t, "childreal")]
+		names = append(names, g.nodes[k].Name)
+		at = k
+	}
+	return
+}
+
+// drawDots appends 1..max elements "." / ".." (".." in two of three) for a
+// path that stands at the real directory `at` and returns where it stands then.
+func (g *gtree) drawDots(t *rapid.T, names [][]byte, at, max int) ([][]byte, int) {
+	if max > 3 {
+		max = 3
+	}
+	m := rapid.IntRange(1, max).Draw(t, "ndots")
+	for j := 0; j < m; j++ {
+		if rapid.IntRange(0, 2).Draw(t, "dotdot") != 0 {
+			names = append(names, []byte(".."))
+			if at != 0 {
+				at = g.nodes[at].Parent
+			}
+		} else {
+			names = append(names, []byte("."))
+		}
+	}
+	return names, at
+}
+
+// follow is the generator's note of where a walk of names from node `from`
+// ends (-1: nowhere) and whether it stayed on real directories all the way.
+func (g *gtree) follow(from int, names [][]byte) (at int, real bool) {
+	at, real = from, true
+	for _, nm := range names {
+		if g.nodes[at].Kind != "d" {
+			real = false
+		}
+		d := g.resolveDir(at)
+		if d < 0 {
+			return -1, false
+		}
+		switch string(nm) {
+		case ".":
+			at = d
+		case "..":
+			at = d
+			if at != 0 {
+				at = g.nodes[at].Parent
+			}
+		default:
+			next := -1
+			for _, k := range g.kids[d] {
+				if bytes.Equal(g.nodes[k].Name, nm) {
+					next = k
+				}
+			}
+			if next < 0 {
+				return -1, false
+			}
+			at = next
+		}
+	}
+	return at, real
+}
+
 func (g *gtree) anyName(t *rapid.T) []byte {
 	if len(g.nodes) > 1 && rapid.Bool().Draw(t, "reuse") {
 		return g.nodes[rapid.IntRange(1, len(g.nodes)-1).Draw(t, "reusenode")].Name
@@ -411,6 +491,7 @@ var fidPool = []uint32{1, 2, 3, 4, 5, 6, 7, 8, 0x7FFFFFFF, 0xFFFFFFFE}
 
 func genOps(t *rapid.T, g *gtree) []Op {
 	loc := map[uint32]int{0: 0}
+	real := map[uint32]bool{0: true} // the fid's path runs through real directories only
 	live := []uint32{0}
 	isOpen := map[uint32]bool{}
 	var ops []Op
@@ -457,6 +538,7 @@ func genOps(t *rapid.T, g *gtree) []Op {
 			}
 			ops = append(ops, Op{Kind: "clunk", Fid: fid})
 			delete(loc, fid)
+			delete(real, fid)
 			delete(isOpen, fid)
 			for i, f := range live {
 				if f == fid {
@@ -489,7 +571,40 @@ func genOps(t *rapid.T, g *gtree) []Op {
 			var names [][]byte
 			var at int
 			complete := false
-			if hostile && (want == 0 || rapid.Bool().Draw(t, "hostilefirst")) {
+			// one walk in four from a directory has "." / ".." elements: after 0..n-1
+			// real names (through real directories) 1..3 of them - so that the walk
+			// ENDS on them -, and in one of three something follows: real names
+			// again, or a missing name (a partial walk whose existing prefix has them)
+			dots := n > 0 && g.nodes[loc[fid]].Kind == "d" && rapid.IntRange(0, 3).Draw(t, "dots") == 0 &&
+				(real[fid] || rapid.IntRange(0, 3).Draw(t, "dotsanyway") == 0)
+			if dots {
+				names, at = g.descendReal(t, loc[fid], rapid.IntRange(0, n-1).Draw(t, "dotsafter"))
+				if g.nodes[at].Kind != "d" {
+					names, at = names[:len(names)-1], g.nodes[at].Parent
+				}
+				names, at = g.drawDots(t, names, at, n-len(names))
+				complete = true
+				if len(names) < n && rapid.IntRange(0, 2).Draw(t, "dotstail") == 0 {
+					if rapid.Bool().Draw(t, "dotstailreal") {
+						var more [][]byte
+						more, at = g.descendReal(t, at, rapid.IntRange(1, min(2, n-len(names))).Draw(t, "dotstaillen"))
+						names = append(names, more...)
+					} else {
+						complete = false
+						names = append(names, g.missingName(t, at))
+						for len(names) < n && rapid.Bool().Draw(t, "dotsbehind") {
+							switch rapid.IntRange(0, 2).Draw(t, "behind") {
+							case 0:
+								names = append(names, []byte(".."))
+							case 1:
+								names = append(names, []byte("."))
+							default:
+								names = append(names, g.anyName(t))
+							}
+						}
+					}
+				}
+			} else if hostile && (want == 0 || rapid.Bool().Draw(t, "hostilefirst")) {
 				names = [][]byte{g.hostileName(t, g.resolveDir(loc[fid]))}
 				if n > 1 {
 					more, _ := g.descend(t, loc[fid], rapid.IntRange(0, n-1).Draw(t, "follow"), true)
@@ -526,6 +641,8 @@ func genOps(t *rapid.T, g *gtree) []Op {
 				if _, ok := loc[op.Newfid]; !ok {
 					live = append(live, op.Newfid)
 				}
+				_, through := g.follow(loc[fid], names)
+				real[op.Newfid] = real[fid] && through
 				loc[op.Newfid] = at
 			}
 		}
@@ -567,7 +684,36 @@ func genCliOp(t *rapid.T, g *gtree, shallow bool) CliOp {
 		want = rapid.IntRange(0, 8).Draw(t, "shallowdepth")
 	}
 	names, at := g.descend(t, 0, want, true)
-	if hx.IsKnown(idSymStart) && rapid.IntRange(0, 3).Draw(t, "keep-known-boundary") != 0 {
+	// one path in four has "." / ".." elements: it runs through real directories
+	// and has, in one of two, an element "." or a detour "..", <the same name
+	// again> behind one of its directories, and (three of four) ends on 1..3
+	// elements "." / ".." - so that the object is a directory reached from below
+	dots := rapid.IntRange(0, 3).Draw(t, "clidots") == 0
+	if dots {
+		names, at = g.descendReal(t, 0, want)
+		names = append([][]byte(nil), names...)
+		lastDir := g.nodes[at].Kind == "d"
+		if !lastDir && rapid.Bool().Draw(t, "clidotspop") {
+			names, at, lastDir = names[:len(names)-1], g.nodes[at].Parent, true
+		}
+		trailing := lastDir && rapid.IntRange(0, 3).Draw(t, "clitrailing") != 0
+		maxj := len(names)
+		if !lastDir {
+			maxj--
+		}
+		if maxj >= 1 && (!trailing || rapid.Bool().Draw(t, "cliinner")) {
+			j := rapid.IntRange(1, maxj).Draw(t, "cliinnerpos")
+			ins := [][]byte{[]byte(".")}
+			if rapid.Bool().Draw(t, "clidetour") {
+				ins = [][]byte{[]byte(".."), names[j-1]}
+			}
+			names = append(names[:j:j], append(ins, names[j:]...)...)
+		}
+		if trailing {
+			names, at = g.drawDots(t, names, at, 3)
+		}
+	}
+	if !dots && hx.IsKnown(idSymStart) && rapid.IntRange(0, 3).Draw(t, "keep-known-boundary") != 0 {
 		// steer away from a symlink as 16th / 32nd element with more to follow
 		cut, pos := -1, 0
 		for j, nm := range names {
@@ -900,7 +1046,7 @@ func enumTree() []Node {
 // the alphabet from seven starting points, to a new fid and in place, in both
 // dialects.
 func TestEnumWalks(t *testing.T) {
-	alphabet := []string{"a", "b", "c", "f", "l", "x"}
+	alphabet := []string{"a", "b", "c", "f", "l", "x", ".", ".."}
 	var seqs [][]string
 	var rec func(prefix []string)
 	rec = func(prefix []string) {
@@ -915,7 +1061,7 @@ func TestEnumWalks(t *testing.T) {
 	rec(nil)
 	starts := [][]string{{}, {"a"}, {"a", "b"}, {"f"}, {"l"}, {"a", "b", "c"}, {"c"}}
 	if enumWalks(t, "enum", enumTree(), starts, seqs) {
-		hx.Exhaustive("fixed 11-node tree (dirs, files, hard link, symlinks to a directory / to the parent / dangling / to itself): every Twalk of 0..3 names over {a,b,c,f,l,x} from 7 starting fids (root, dir, nested dir, 2 files, symlink to dir, dangling symlink), to a new fid and in place, both dialects")
+		hx.Exhaustive("fixed 11-node tree (dirs, files, hard link, symlinks to a directory / to the parent / dangling / to itself): every Twalk of 0..3 names over {a,b,c,f,l,x,.,..} from 7 starting fids (root, dir, nested dir, 2 files, symlink to dir, dangling symlink), to a new fid and in place, both dialects; walks whose '.' / '..' elements stand behind a symlink or a file are sent to nobody (not judged)")
 	}
 }
 
